@@ -249,7 +249,8 @@ impl Gen<'_> {
         }
         let x = if cks.is_empty() { "-".to_owned() } else { cks.join(",") };
         let l = if k.ends_with('/') && self.rng.chance(1, 2) { len.to_string() } else { "-".to_owned() };
-        if all_ok {
+        // (since 4f3e079 a key whose side files cannot be named is refused before anything is written)
+        if all_ok && !side_too_long(&b, &k) {
             self.sim.maybe.insert(pair.clone());
             if let Some(objs) = self.sim.buckets.get_mut(&b) {
                 objs.insert(k.clone(), len);
@@ -885,6 +886,12 @@ impl Gen<'_> {
     }
 }
 
+/// the name `.bucket-<b64>.object-<b64>.metadata.json` / `.internal.json` exceeds the 255 bytes of a file name
+fn side_too_long(b: &str, k: &str) -> bool {
+    let b64 = |n: usize| (4 * n + 2) / 3;
+    8 + b64(b.len()) + 8 + b64(k.len()) + 14 > 255
+}
+
 fn gen_history(rng: &mut Rng, clean: bool, big: bool, maxops: u64) -> Vec<String> {
     let nb = rng.range(1, 3) as usize;
     // half of the histories use bucket names one of which is a prefix of another (at a 3-byte boundary, where unpadded
@@ -912,7 +919,9 @@ fn gen_history(rng: &mut Rng, clean: bool, big: bool, maxops: u64) -> Vec<String
             keys.push("t/u".to_owned());
         }
         if rng.chance(1, 10) {
-            keys.push("L".repeat(200));
+            // side-file names that do not fit a file name; with a 3-byte bucket name a key of 165 bytes still fits, 166 does not
+            // (7-byte name: 161 / 162)
+            keys.push("L".repeat(rng.pick(&[200, 200, 166, 165, 162, 161])));
         }
         if rng.chance(1, 8) {
             keys.push(rng.pick(&["../x", "/abs", "d/../../y", ".", ""]).to_owned());
